@@ -52,10 +52,25 @@ class _FarewellApp(_SleepyDisconnect):
         return [('yield',), ('send', sid, 'farewell')]
 
 
+class _HostileApp(_SleepyDisconnect):
+    """Application whose handlers fail: the message handler raises, the disconnect handler raises a TypeError."""
+    def message(self, sid, data):
+        return [('raise', 'message handler failure')]
+
+    def disconnect(self, sid, reason):
+        return [('raise_type',)]
+
+
+class _LegacyRaiser(_SleepyDisconnect):
+    """Installed as a one-argument (legacy) disconnect handler that raises."""
+    def disconnect(self, sid, reason=None):
+        return [('raise', 'legacy disconnect handler failure')]
+
+
 def apply_action(w, st, a):
     """Returns False when the action is not enabled in this state."""
     sid = st.sids[0] if st.sids else None
-    if a == '!farewell':
+    if a in ('!farewell', '!hostile', '!legacy'):
         return True          # marker: the world was built with the farewell application
     if a.startswith('~'):
         # something that ends the session is under way and its disconnect handler is asleep when the probe arrives
@@ -140,6 +155,10 @@ def build(impl, hist):
     extra = {'behaviour': _SleepyDisconnect()} if any(a.startswith('~') for a in hist) else {}
     if hist[:1] == ('!farewell',) or (hist and hist[0] == '!farewell'):
         extra = {'behaviour': _FarewellApp()}
+    if hist and hist[0] == '!hostile':
+        extra = {'behaviour': _HostileApp()}
+    if hist and hist[0] == '!legacy':
+        extra = {'behaviour': _LegacyRaiser(), 'legacy_disconnect': True}
     w = peer.make_world(impl, server_kwargs=dict(ping_interval=INTERVAL, ping_timeout=TIMEOUT,
                                                  max_http_buffer_size=4000, compression_threshold=8), **extra)
     st = St()
@@ -379,6 +398,12 @@ def run(ctx):
         for base_h in (('open',), ('open', 'poll'), ('open', 'send', 'poll'), UPGRADED):
             for i in range(len(PROBES)):
                 jobs.append((impl, ('!farewell',) + base_h, i))
+        # failing-application pass: handlers that raise (a TypeError from a two-argument disconnect handler, anything from a
+        # legacy one-argument one, an exception from the message handler) - every probe from four states
+        for mark in ('!hostile', '!legacy'):
+            for base_h in (('open',), ('open', 'poll'), ('open', 'send', 'poll'), UPGRADED):
+                for i in range(len(PROBES)):
+                    jobs.append((impl, (mark,) + base_h, i))
         # overlap pass: every probe arrives while the disconnect handler of an ending session is asleep
         for base_h in (('open',), ('open', 'poll'), UPGRADED):
             for f in OVERLAP_FIRSTS:
@@ -401,7 +426,7 @@ def run(ctx):
         'rule': 'breadth-first search over %r to depth %d (and depth/2 further from the state reached by a completed upgrade) with de-duplication on a canonical digest of sessions, queues, pending '
                 'requests/sockets, events and next timer; in each of the distinct states each of %d probes (%d HTTP requests incl. '
                 'malformed bodies, %d API calls) is issued on a fresh replay and the world run %.0fs of virtual time past it. '
-                'A farewell pass issues every probe on worlds whose disconnect handler yields and then sends to the ending session. An overlap pass issues every probe while the disconnect handler (0.25 s) of a session that is being ended by a bad / oversize / CLOSE POST or by disconnect(sid) is still asleep, from three base states. states = distinct digests over both servers; transitions = history steps explored + probe executions.'
+                'A farewell pass issues every probe on worlds whose disconnect handler yields and then sends to the ending session; a failing-application pass on worlds whose message handler raises and whose disconnect handler raises TypeError, or is a legacy one-argument handler that raises. An overlap pass issues every probe while the disconnect handler (0.25 s) of a session that is being ended by a bad / oversize / CLOSE POST or by disconnect(sid) is still asleep, from three base states. states = distinct digests over both servers; transitions = history steps explored + probe executions.'
                 % (ACTIONS, depth, len(PROBES), len([p for p in PROBES if p[0] == 'http']), len([p for p in PROBES if p[0] == 'call']), HORIZON),
         'exhaustive': True, 'bound_completed': depth, 'max_depth_reached': maxd, 'states_per_impl': per_impl,
         'violating_cases_total': nv,
